@@ -57,7 +57,9 @@ impl World {
         let root = if !cfg!(miri) && shm.is_dir() && std::fs::create_dir_all(shm.join(format!("jv-c19-{}", std::process::id()))).is_ok() {
             shm.join(format!("jv-c19-{}", std::process::id())).join(std::path::Path::new(root).file_name().unwrap_or_default())
         } else {
-            PathBuf::from(root)
+            // (-Zmiri-many-seeds runs the same shard several times in parallel: every run needs its own tree)
+            let unique = std::time::SystemTime::now().duration_since(SystemTime::UNIX_EPOCH).map(|d| d.as_nanos()).unwrap_or(0);
+            PathBuf::from(format!("{}-{}", root, unique))
         };
         let _ = std::fs::remove_dir_all(&root);
         let _ = std::fs::create_dir_all(root.join("zoneinfo/Zed"));
@@ -512,7 +514,7 @@ fn run_concurrent(cx: &mut Ctx, backend: Backend, round: u64, threads: u32, ops_
     let t0 = std::time::Instant::now();
     let mut watchdog = false;
     while done.load(Ordering::SeqCst) < threads as u64 {
-        if t0.elapsed() > Duration::from_secs(120) {
+        if t0.elapsed() > Duration::from_secs(if cfg!(miri) { 6000 } else { 120 }) {
             watchdog = true;
             break;
         }
@@ -542,6 +544,10 @@ fn run_concurrent(cx: &mut Ctx, backend: Backend, round: u64, threads: u32, ops_
         std::thread::sleep(Duration::from_micros(r.below(300)));
     }
     stop.store(true, Ordering::SeqCst);
+    if watchdog && cfg!(miri) {
+        cx.inconclusive(format!("{}: watchdog fired under Miri (interpreter too slow on this machine)", case));
+        std::process::exit(cx.finish());
+    }
     if watchdog {
         // bounded progress: where are the workers?
         let pid = std::process::id();
@@ -573,7 +579,7 @@ fn run_concurrent(cx: &mut Ctx, backend: Backend, round: u64, threads: u32, ops_
         let refreshes: Vec<u64> = REFRESHES.lock().map(|v| v.clone()).unwrap_or_default();
         check_concurrent_history(cx, tag, &case, &evs, &refreshes);
     }
-    let _ = std::fs::remove_dir_all(&root);
+    let _ = std::fs::remove_dir_all(&world.root);
 }
 
 /// Offline checker of a recorded concurrent history.
